@@ -1,5 +1,6 @@
 CONSTANTS
   Devs = {"Dev_StaleAssignmentLeft"}
+  EosChoices = {TRUE, FALSE}
   MaxItems = 2
   MaxBody = 1
   Depth = 1
